@@ -142,6 +142,18 @@ def t_misc():
 
 
 @case
+def t_str_int_roundtrip():
+    out = []
+    for txt in ["0", "7", "007", "120", "0000", "1029", "000120"]:
+        for mul in (1, 100):
+            def mod(txt=txt, mul=mul):
+                n = models.model_int(_pinned(txt))
+                return models.model_str(n * mul if mul != 1 else n)
+            out.append((mod, (lambda txt=txt, mul=mul: str(int(txt) * mul))))
+    return out
+
+
+@case
 def t_preds():
     out = []
     for s in ["", "a", "A", "aB", "ab1", "AB1", "1", "١", "ǅ", "ǆa", "ß", " a", "a b", "É", "éa", "_", "a_"]:
